@@ -60,11 +60,26 @@ type c09Clause struct {
 	rule bool
 }
 
+// body is the body of a rule: "true" or a goal that succeeds but is not true (decided by the stamp, so that it is the
+// same wherever the clause text is built); "" for a fact.
+func (c c09Clause) body() string {
+	if !c.rule {
+		return ""
+	}
+	if c.s[len(c.s)-1]%2 == 0 {
+		return "true"
+	}
+	return "atom(a)"
+}
+
+// headOnly: does retract(Head), i.e. retract((Head :- true)), match this clause's body?
+func (c c09Clause) headOnly() bool { return c.body() == "" || c.body() == "true" }
+
 func (c c09Clause) text(pred int) string {
 	k := c.k
 	h := fmt.Sprintf("d%d(%s, %s)", pred, k, c.s)
 	if c.rule {
-		return "(" + h + " :- true)"
+		return "(" + h + " :- " + c.body() + ")"
 	}
 	return h
 }
@@ -152,15 +167,16 @@ type c09Act struct {
 }
 
 type c09Scenario struct {
-	Layer   string   `json:"layer"` // cursor | inquery
-	Policy  int      `json:"policy"`
-	Initial []string `json:"initial"`
-	Ops     []c09Op  `json:"ops,omitempty"`
-	Gen     *c09Op   `json:"gen,omitempty"`
-	Acts    []c09Act `json:"acts,omitempty"`
-	Cancel  int      `json:"cancel_at_poll,omitempty"`
-	Query   string   `json:"query,omitempty"`
-	Dups    bool     `json:"duplicate_stamps"`
+	Layer    string   `json:"layer"` // cursor | inquery
+	Policy   int      `json:"policy"`
+	Initial  []string `json:"initial"`
+	Ops      []c09Op  `json:"ops,omitempty"`
+	Gen      *c09Op   `json:"gen,omitempty"`
+	Acts     []c09Act `json:"acts,omitempty"`
+	Cancel   int      `json:"cancel_at_poll,omitempty"`
+	Query    string   `json:"query,omitempty"`
+	Dups     bool     `json:"duplicate_stamps"`
+	FromText bool     `json:"initial_clauses_from_a_consulted_text"`
 }
 
 func c09K(g *kit.Lane, allowVar bool) string {
@@ -180,6 +196,7 @@ func c09Gen(r *kit.Run) (*c09Scenario, *c09Store) {
 		return sc, &c09Store{}
 	}
 	sc.Dups = g.Choose(4) == 0
+	sc.FromText = g.Choose(2) == 0
 	st := &c09Store{}
 	stamp := 0
 	next := func() string {
@@ -312,7 +329,11 @@ func c09Goal(kind string, pred int, k string) string {
 func c09Answer(kind, k string, c c09Clause) string {
 	var parts []string
 	if kind == "clause" || kind == "retract-rule" {
-		parts = append(parts, "B=true")
+		b := c.body()
+		if b == "" {
+			b = "true"
+		}
+		parts = append(parts, "B="+b)
 	}
 	if k == "_" {
 		if c.k == "_" {
@@ -339,7 +360,7 @@ func (cu *c09Cursor) candidates(st *c09Store) []c09Cand {
 	retract := strings.HasPrefix(cu.kind, "retract")
 	for i := cu.pos; i < len(cu.snapshot); i++ {
 		c := cu.snapshot[i]
-		if !c09Match(c, cu.k) {
+		if !c09Match(c, cu.k) || (cu.kind == "retract" && !c.headOnly()) {
 			continue
 		}
 		if retract && !st.live(cu.pred, c.uid) {
@@ -575,6 +596,26 @@ func c09Texts(cs []c09Clause, pred int) []string {
 }
 
 func c09Load(interp *prolog.Interpreter, sc *c09Scenario) {
+	if sc.FromText {
+		// the initial clauses come from one consulted text (the three predicates one after the other) instead of assertz
+		var sb strings.Builder
+		sb.WriteString(":- dynamic(d1/2). :- dynamic(d2/2). :- dynamic(d3/2).\n")
+		for p := 1; p <= 3; p++ {
+			for _, c := range sc.Initial {
+				if strings.HasPrefix(strings.TrimPrefix(c, "("), fmt.Sprintf("d%d(", p)) {
+					sb.WriteString(strings.TrimSuffix(strings.TrimPrefix(c, "("), ")"))
+					if !strings.HasPrefix(c, "(") {
+						sb.WriteString(")")
+					}
+					sb.WriteString(".\n")
+				}
+			}
+		}
+		if err := interp.Exec(sb.String()); err != nil {
+			kit.Bug("c09 load from text: %v\n%s", err, sb.String())
+		}
+		return
+	}
 	if err := interp.Exec(":- dynamic(d1/2). :- dynamic(d2/2). :- dynamic(d3/2)."); err != nil {
 		kit.Bug("c09 load: %v", err)
 	}
@@ -629,7 +670,7 @@ func c09Update(op c09Op, st *c09Store) (string, func() bool, bool) {
 		}
 		return fmt.Sprintf("retract(d%d(%s, _))", op.Pred, kk), func() bool {
 			for _, cl := range st.preds[op.Pred] {
-				if c09Match(cl, op.K) {
+				if c09Match(cl, op.K) && cl.headOnly() {
 					st.remove(op.Pred, cl.uid)
 					return true
 				}
@@ -731,7 +772,7 @@ func c09ExecInQuery(r *kit.Run, sc *c09Scenario, st *c09Store) {
 	retractGen := func(pred int, kpat string, kind string, each func(c c09Clause) bool) bool {
 		snap := append([]c09Clause(nil), st.preds[pred]...)
 		for _, c := range snap {
-			if !c09Match(c, kpat) {
+			if !c09Match(c, kpat) || (kind == "retract" && !c.headOnly()) {
 				continue
 			}
 			if !st.live(pred, c.uid) {
@@ -776,7 +817,7 @@ func c09ExecInQuery(r *kit.Run, sc *c09Scenario, st *c09Store) {
 			return retractGen(a.Pred, k, "retract", func(c09Clause) bool { return note() })
 		case "once-retract":
 			for _, c := range st.preds[a.Pred] {
-				if c09Match(c, k) {
+				if c09Match(c, k) && c.headOnly() {
 					st.remove(a.Pred, c.uid)
 					return note()
 				}
@@ -978,7 +1019,10 @@ func initialDump(sc *c09Scenario) string {
 	for _, t := range sc.Initial {
 		var p int
 		var rest string
-		t = strings.TrimPrefix(strings.TrimSuffix(t, " :- true)"), "(")
+		if i := strings.Index(t, " :- "); i > 0 {
+			t = t[:i]
+		}
+		t = strings.TrimPrefix(t, "(")
 		fmt.Sscanf(t, "d%d", &p)
 		rest = t[strings.IndexByte(t, '(')+1 : strings.LastIndexByte(t, ')')]
 		f := strings.SplitN(rest, ", ", 2)
